@@ -370,7 +370,8 @@ func c17Embedded(r *rand.Rand, idx int, format int) Case {
 		cb := doc.Document()
 		for i, n := 0, 1+r.Intn(6); i < n; i++ {
 			if format == 2 {
-				k := []string{"app.name", "app.port", "db.host", "db.user", "new.key.deep", "x"}[r.Intn(6)]
+				// incl. a leaf replaced by a subtree (app.port.http over app.port) and a subtree by a leaf (db, app)
+				k := []string{"app.name", "app.port", "db.host", "db.user", "new.key.deep", "x", "app.port.http", "db", "app", "app.port.https.tls"}[r.Intn(10)]
 				if r.Intn(3) == 0 {
 					cb.RemoveAt(k)
 					edits = append(edits, "RemoveAt "+k)
